@@ -15,7 +15,11 @@ RULE = ('One case = one random common.LogPass.FrameArray (1..10 channels; float3
         'write_curve_and_array_section_to_las and with the three writer functions separately, a harness ~V/~W header '
         'prepended, read back by the real LASRead and by the independent tokenizer of tdv.gen.las.  Distinct by the digest of '
         '(channels, dtypes, shapes, raw array bytes, options).  Non-trivial = >= 2 channels with a proper subset requested, '
-        'or a multi-valued channel with a reduction other than first.')
+        'or a multi-valued channel with a reduction other than first.  Rare classes: 20..64 channels, waveform channels of 128..500 values, '
+        'big-endian arrays, field widths 2, 3, 32..80, 10..15 decimals, frame arrays in which only the first and the requested channels hold '
+        'frames (as the RP66V1 conversion hands them over).  Histories: one subset object kept by the caller through all writer calls and on to a '
+        'following frame array with another first channel; the data section written chunk by chunk from the re-initialised frame array object; '
+        'the frame array LASRead returned (nulls masked) written and read a second time.')
 ASSUMPTIONS = [
     'Channel names are LAS-legal mnemonics (no blank, dot, colon; not re-typable by Python int()/float()/yes-no: that defect '
     'belongs to C09) and units contain no blank or colon; a name or unit that LAS cannot represent is outside the property',
@@ -29,7 +33,9 @@ ASSUMPTIONS = [
     'elements; zero for first/min/max) evaluated in exact arithmetic on the printed decimal token; the value read by LASRead '
     'must equal Python float(token) exactly',
     'The null value -999.25 in the source is compared on the underlying data (np.ma.getdata); the mask is not part of the property',
-    'Float formats are .Nf with N in 0..8 and, in 15% of the cases, general / exponent formats (.N, .Ng, .Ne) whose tolerance is half a unit of the last *significant* digit',
+    'Second generation: only the values read back are compared (second read == first read within the print tolerance); how a masked '
+    'null is spelled in the second text is not asserted',
+    'Float formats are .Nf with N in 0..8 (5%: 10, 12, 15) and, in 15% of the cases, general / exponent formats (.N, .Ng, .Ne) whose tolerance is half a unit of the last *significant* digit',
 ]
 MECHANISMS = [
     ('TotalDepth.LAS.core.WriteLAS', 'write_curve_section_to_las'),
@@ -41,7 +47,8 @@ MECHANISMS = [
     ('TotalDepth.LAS.core.LASRead', 'LASSectionArray.finalise'),
 ]
 REQUIRED_MONITORS = ['channels_read_back', 'values_within_print_tolerance', 'reader_equals_token', 'tokenizer_consistency',
-                     'three_writers_equal_combined', 'contract:LASSectionArray.add_member_line', 'contract:LASSectionArray.finalise']
+                     'three_writers_equal_combined', 'contract:LASSectionArray.add_member_line', 'contract:LASSectionArray.finalise',
+                     'chunked_data_writes', 'second_generation', 'shared_subset_next_array']
 MIN_NONTRIVIAL = {'quick': 4500, 'thorough': 80000}
 TIMEOUT_S = {'quick': 300, 'thorough': 3000}
 N_ARRAYS = {'quick': 9600, 'thorough': 160000}
@@ -149,6 +156,7 @@ def run_shard(ctx, p):
     import io
     import logging
     import math
+    import warnings
     import numpy as np
     logging.disable(logging.CRITICAL)
     from TotalDepth.LAS.core import LASRead, WriteLAS
@@ -167,127 +175,20 @@ def run_shard(ctx, p):
     U = {'float32': Fraction(1, 2 ** 24)}
     HEADER = G.minimal_header()
 
-    for ai in range(p['arrays']):
-        nch = rng.choice([1, 2, 3, 4, 5, 6, 8, 10, rng.randint(1, 10)])
-        nfr = rng.choice([1, 2, 3, 5, 8, rng.randint(1, 80), rng.randint(1, 80)])
-        if rng.random() < 0.03:
-            # long logs: more frames than any plausible write buffer (1 Ki, 2 Ki, 4 Ki rows) holds, few channels to stay cheap
-            nfr = rng.choice([1024, 1025, 2048, 2049, 4097, rng.randint(1025, 2600)])
-            nch = min(nch, 3)
-        fw = rng.randint(4, 24)
-        d = rng.randint(0, 8)
-        fmt = '.%df' % d
-        general = rng.random() < 0.15 and nfr <= 80     # three significant digits cannot keep 1000 index values distinct
-        if general:
-            # the option takes any Python float format: general / exponent forms count significant digits, not decimals
-            fmt = rng.choice(['.3', '.5', '.8', '.4g', '.7g', '.3e', '.6e'])
-            d = 3
-        red = rng.choice(REDUCTIONS)
-        used = set()
-        specs = []
-        fa = LogPass.FrameArray(rng.choice(['FA', 'id', '60B', 'frame array 1']), rng.choice(['desc', '', 'Main: log']))
-        for c in range(nch):
-            name = G.rand_mnem(rng, used, G.CURVE_NAMES + ['DEPT', 'TIME', 'INDEX'])
-            units = rng.choice(G.UNITS) if rng.random() < 0.8 else ''
-            if G._retypable(units):
-                units = 'M'
-            if rng.random() < 0.06:
-                # units that look like numbers (scale factors, counts): text all the same
-                units = rng.choice(['1', '100', '0.1', '1e-3', '5', '1000', '1E3', '0.001'])
-            long_name = G.rand_text(rng, allow_colon=rng.random() < 0.2)
-            dtype = rng.choice(DTYPES)
-            shape = rand_shape(rng) if (c > 0 or (rng.random() < 0.25 and not general)) else (1,)
-            count = 1
-            for s in shape:
-                count *= s
-            if c == 0:
-                # strictly monotonic index; every element of frame i lies in [base_i, base_i + step/4]
-                if dtype.startswith('float') and general:
-                    # index values that stay distinct at three significant digits
-                    sgn = rng.choice([1, -1])
-                    vals = [[float(sgn * (1 + f))] for f in range(nfr)]
-                    cls = 'index'
-                elif dtype.startswith('float'):
-                    unit = max(4 * 10.0 ** -d, 0.01)
-                    step = unit * rng.choice([1, 1, 2.5, 10, 100]) * rng.choice([1, 1, -1])
-                    start = rng.uniform(0, 1000)
-                    vals = [[start + f * step + (abs(step) / 4) * (rng.random() if count > 1 else 0) for _ in range(count)] for f in range(nfr)]
-                    cls = 'index'
-                else:
-                    lo, hi = INT_RANGE[dtype]
-                    step = rng.choice([1, 1, 2, 4]) if nfr * 4 < hi - lo else 1
-                    if step * nfr > hi - lo:       # int8/uint8 with many frames
-                        dtype = 'int32'
-                        lo, hi = INT_RANGE[dtype]
-                    start = rng.randint(max(lo, -10 ** 6), min(hi - step * nfr, 10 ** 6))
-                    sign = 1
-                    vals = [[start + f * step + (rng.randint(0, step // 4) if count > 1 else 0) for _ in range(count)] for f in range(nfr)]
-                    if rng.random() < 0.3 and lo < 0:
-                        vals = vals[::-1]
-                    cls = 'index'
-            else:
-                vals, cls = rand_values(rng, dtype, count, nfr, d)
-            ch = LogPass.FrameChannel(name, long_name, units, shape, np.dtype(dtype))
-            ch.init_array(nfr)
-            ch.array[...] = np.array(vals, dtype=dtype).reshape((nfr,) + shape)
-            fa.append(ch)
-            specs.append({'name': name, 'units': units, 'dtype': dtype, 'shape': list(shape), 'class': cls})
-        names = [s['name'] for s in specs]
-        # ---- subset
-        r = rng.random()
-        if r < 0.25:
-            sub, sclass = set(), 'all(empty)'
-        elif r < 0.45:
-            sub, sclass = set(rng.sample(names[1:], rng.randint(0, len(names) - 1))) | {names[0]}, 'with-first'
-        elif r < 0.75:
-            sub = set(rng.sample(names[1:], rng.randint(1, len(names) - 1))) if nch > 1 else {'nope'}
-            sclass = 'without-first'
-        elif r < 0.9:
-            sub = set(rng.sample(names, rng.randint(0, len(names)))) | {rng.choice(['nope', 'XXXX', names[0].lower() + '_', ''])}
-            sclass = 'with-unknown'
-        else:
-            sub, sclass = set(names), 'all(named)'
-        exp_idx = [i for i, n in enumerate(names) if not sub or i == 0 or n in sub]
-        exp_names = [names[i] for i in exp_idx]
-        multi_nonfirst = red != 'first' and any(len(specs[i]['shape']) > 1 or specs[i]['shape'][0] > 1 for i in exp_idx)
-        nontrivial = (nch >= 2 and len(exp_idx) < nch) or multi_nonfirst
-        key = [[s['name'], s['units'], s['dtype'], s['shape']] for s in specs], [c.array.tobytes().hex() for c in fa.channels], sorted(sub), red, fw, fmt
-        opts = {'reduction': red, 'subset': sorted(sub), 'field_width': fw, 'format': fmt, 'frames': nfr}
-        rec.case(key, nontrivial, classes=['subset-' + sclass, 'reduction-' + red, 'channels-%s' % (nch if nch < 4 else '4+')]
-                 + sorted(set('dtype-' + s['dtype'] for s in specs)) + sorted(set('values-' + s['class'] for s in specs))
-                 + sorted(set('rank-%d' % len(s['shape']) for s in specs)),
-                 sample={'channels': specs[:5], 'options': opts})
-        base_w = {'array': ai, 'channels': specs, 'options': opts}
-        fsl = rng.choice([Slice.Slice(), Slice.Slice(0, None, 1), Slice.Sample(max(1, nfr))])
-        maxf = nfr + rng.choice([0, 0, 5])
-        # ---- write: combined and the three parts (each with its own copy of the subset)
-        try:
-            out = io.StringIO()
-            WriteLAS.write_curve_and_array_section_to_las(fa, maxf, red, fsl, set(sub), fw, fmt, out)
-            body = out.getvalue()
-            o1, o2, o3 = io.StringIO(), io.StringIO(), io.StringIO()
-            WriteLAS.write_curve_section_to_las(fa, set(sub), o1)
-            WriteLAS.write_array_section_header_to_las(fa, maxf, red, fsl, set(sub), fw, o2)
-            WriteLAS.write_array_section_data_to_las(fa, red, set(sub), fw, fmt, o3)
-        except Exception as e:
-            viol('three_writers_equal_combined', 'writer-raises', 'writer raised %s: %s' % (type(e).__name__, e), base_w, exc=e)
-            continue
-        rec.add('bytes_written', len(body))
-        rec.mon('three_writers_equal_combined')
-        if o1.getvalue() + o2.getvalue() + o3.getvalue() != body:
-            parts = o1.getvalue() + o2.getvalue() + o3.getvalue()
-            k = next((i for i, (a, b) in enumerate(zip(parts, body)) if a != b), min(len(parts), len(body)))
-            viol('three_writers_equal_combined', 'writers-disagree', 'combined output differs from curve+header+data at offset %d' % k,
-                 dict(base_w, combined=body[max(0, k - 200):k + 200], parts=parts[max(0, k - 200):k + 200]))
-        text = HEADER + body
+    def check_text(text, fa, specs, exp_idx, nfr, red, fw, fmt, d, general, base_w, label):
+        """Everything the property says about one written text: tokenizer consistency, values against the exact reduction of the
+        arrays now held by fa, read back by the real reader.  -> (tokenizer result, LASRead object) or None after a violation
+        that makes the rest meaningless."""
+        exp_names = [specs[i]['name'] for i in exp_idx]
         tw = text if len(text) < 4000 else text[:4000] + '...'
+        base_w = dict(base_w, written_as=label)
         # ---- independent tokenizer: curve names == heading names == expected; every row has that many columns
         rec.mon('tokenizer_consistency')
         try:
             tok = G.tokenize(text)
         except Exception as e:
             viol('tokenizer_consistency', 'not-las', 'output is not tokenizable LAS: %s' % e, dict(base_w, text=tw), exc=e)
-            continue
+            return None
         cnames = [t[0] for t in tok.get('C', [])]
         cunits = [t[1] for t in tok.get('C', [])]
         bad = None
@@ -305,8 +206,8 @@ def run_shard(ctx, p):
                     bad = ('row-columns', 'data row %d has %d columns, %d channels listed: %r' % (f, len(row), len(exp_names), row[:12]))
                     break
         if bad:
-            viol('tokenizer_consistency', bad[0], bad[1], dict(base_w, expected=exp_names, curve_section=cnames, heading=tok['A_heading'], text=tw))
-            continue
+            viol('tokenizer_consistency', bad[0], bad[1] + ' [%s]' % label, dict(base_w, expected=exp_names, curve_section=cnames, heading=tok['A_heading'], text=tw))
+            return None
         # ---- values: printed token against the exact reduction
         half = Fraction(1, 2 * 10 ** d)
         nviol = 0
@@ -346,10 +247,10 @@ def run_shard(ctx, p):
                 if tv is None or abs(tv - ref) > tol_of(ref) + err:
                     nviol += 1
                     if nviol <= 3:
-                        viol('values_within_print_tolerance', 'value', 'channel %s frame %d: printed %r, %s of source is %s (tolerance %s)' % (
-                            sp['name'], f, token, red, float(ref), float(tol_of(ref) + err)),
+                        viol('values_within_print_tolerance', 'value', 'channel %s frame %d: printed %r, %s of source is %s (tolerance %s) [%s]' % (
+                            sp['name'], f, token, red, float(ref), float(tol_of(ref) + err), label),
                             dict(base_w, channel=sp, frame=f, token=token, source=rows[f][:24], reference=float(ref), ref_fraction=str(ref) if len(str(ref)) < 80 else None,
-                                 tolerance=float(tol_of(ref) + err), row=tok['rows'][f]))
+                                 tolerance=float(tol_of(ref) + err), row=tok['rows'][f][:40]))
                 if err:
                     rec.add('values_with_reduction_error_allowance')
                 if len(token) > fw:
@@ -359,24 +260,24 @@ def run_shard(ctx, p):
         try:
             l = LASRead.LASRead(io.StringIO(text), 'c10')
         except Exception as e:
-            viol('channels_read_back', 'read-raises', 'LASRead raises %s on the written text: %s' % (type(e).__name__, e), dict(base_w, text=tw), exc=e)
+            viol('channels_read_back', 'read-raises', 'LASRead raises %s on the written text: %s [%s]' % (type(e).__name__, e, label), dict(base_w, text=tw), exc=e)
             for name, msg in contracts.drain():
                 viol('contract:' + name, 'breach', msg, dict(base_w, contract=name, message=msg))
-            continue
+            return None
         for name, msg in contracts.drain():
             viol('contract:' + name, 'breach', msg, dict(base_w, contract=name, message=msg, text=tw))
         rfa = l.frame_array
         got_names = [c.ident for c in rfa.channels]
         got_units = [c.units for c in rfa.channels]
         if got_names != exp_names or [type(x) for x in got_names] != [str] * len(exp_names):
-            viol('channels_read_back', 'names', 'read back channels %r, expected %r' % (got_names, exp_names), dict(base_w, got=[repr(x) for x in got_names], text=tw))
-            continue
+            viol('channels_read_back', 'names', 'read back channels %r, expected %r [%s]' % (got_names, exp_names, label), dict(base_w, got=[repr(x) for x in got_names], text=tw))
+            return None
         if got_units != [specs[i]['units'] for i in exp_idx]:
             viol('channels_read_back', 'units', 'read back units %r, expected %r' % (got_units, [specs[i]['units'] for i in exp_idx]),
                  dict(base_w, got=[repr(x) for x in got_units], text=tw))
         if l.number_of_frames() != nfr or any(len(c.array) != nfr for c in rfa.channels):
-            viol('channels_read_back', 'frame-count', 'read back %d frames, wrote %d' % (l.number_of_frames(), nfr), dict(base_w, text=tw))
-            continue
+            viol('channels_read_back', 'frame-count', 'read back %d frames, wrote %d [%s]' % (l.number_of_frames(), nfr, label), dict(base_w, text=tw))
+            return None
         nv = 0
         for col, c in enumerate(rfa.channels):
             data = np.ma.getdata(c.array).reshape(-1).tolist()
@@ -391,6 +292,240 @@ def run_shard(ctx, p):
                     nv += 1
                     if nv <= 3:
                         viol('reader_equals_token', 'reader-value', 'channel %s frame %d: token %r read as %r' % (c.ident, f, token, data[f]),
-                             dict(base_w, token=token, got=data[f], row=tok['rows'][f]))
+                             dict(base_w, token=token, got=data[f], row=tok['rows'][f][:40]))
+        return tok, l
+
+    def write_and_check(fa, specs, sub, sub_arg, nfr, red, fw, fmt, d, general, base_w, label, parts=True):
+        """Write fa with the real writer (sub_arg is the object handed to TotalDepth; sub is the content it had when the caller
+        made it) and check the text.  -> (text pieces, check_text result) or None."""
+        names = [sp['name'] for sp in specs]
+        exp_idx = [i for i, n in enumerate(names) if not sub or i == 0 or n in sub]
+        fsl = rng.choice([Slice.Slice(), Slice.Slice(0, None, 1), Slice.Sample(max(1, nfr))])
+        maxf = nfr + rng.choice([0, 0, 5])
+        fresh = (lambda: set(sub)) if sub_arg is None else (lambda: sub_arg)
+        try:
+            out = io.StringIO()
+            WriteLAS.write_curve_and_array_section_to_las(fa, maxf, red, fsl, fresh(), fw, fmt, out)
+            body = out.getvalue()
+            o1, o2, o3 = io.StringIO(), io.StringIO(), io.StringIO()
+            if parts:
+                WriteLAS.write_curve_section_to_las(fa, fresh(), o1)
+                WriteLAS.write_array_section_header_to_las(fa, maxf, red, fsl, fresh(), fw, o2)
+                WriteLAS.write_array_section_data_to_las(fa, red, fresh(), fw, fmt, o3)
+        except Exception as e:
+            viol('three_writers_equal_combined', 'writer-raises', 'writer raised %s: %s [%s]' % (type(e).__name__, e, label), dict(base_w, written_as=label), exc=e)
+            return None
+        rec.add('bytes_written', len(body))
+        if parts:
+            rec.mon('three_writers_equal_combined')
+            if o1.getvalue() + o2.getvalue() + o3.getvalue() != body:
+                pieces = o1.getvalue() + o2.getvalue() + o3.getvalue()
+                k = next((i for i, (a, b) in enumerate(zip(pieces, body)) if a != b), min(len(pieces), len(body)))
+                viol('three_writers_equal_combined', 'writers-disagree', 'combined output differs from curve+header+data at offset %d' % k,
+                     dict(base_w, combined=body[max(0, k - 200):k + 200], parts=pieces[max(0, k - 200):k + 200]))
+        res = check_text(HEADER + body, fa, specs, exp_idx, nfr, red, fw, fmt, d, general, base_w, label)
+        return (o1.getvalue(), o2.getvalue(), o3.getvalue(), fsl, maxf), res, exp_idx
+
+    for ai in range(p['arrays']):
+        nch = rng.choice([1, 2, 3, 4, 5, 6, 8, 10, rng.randint(1, 10)])
+        nfr = rng.choice([1, 2, 3, 5, 8, rng.randint(1, 80), rng.randint(1, 80)])
+        r0 = rng.random()
+        if r0 < 0.03:
+            # long logs: more frames than any plausible write buffer (1 Ki, 2 Ki, 4 Ki rows) holds, few channels to stay cheap
+            nfr = rng.choice([1024, 1025, 2048, 2049, 4097, rng.randint(1025, 2600)])
+            nch = min(nch, 3)
+        elif r0 < 0.045:
+            # wide frames: as many channels as a real RP66V1 / LIS frame carries
+            nch = rng.choice([20, 33, 48, 64])
+            nfr = min(nfr, 6)
+        fw = rng.randint(4, 24)
+        if rng.random() < 0.06:
+            fw = rng.choice([2, 3, 32, 48, 80])     # narrower than any value / far wider than any value
+        d = rng.randint(0, 8)
+        if rng.random() < 0.05:
+            d = rng.choice([10, 12, 15])
+        fmt = '.%df' % d
+        general = rng.random() < 0.15 and nfr <= 80     # three significant digits cannot keep 1000 index values distinct
+        if general:
+            # the option takes any Python float format: general / exponent forms count significant digits, not decimals
+            fmt = rng.choice(['.3', '.5', '.8', '.4g', '.7g', '.3e', '.6e'])
+            d = 3
+        red = rng.choice(REDUCTIONS)
+        used = set()
+        specs = []
+        fa = LogPass.FrameArray(rng.choice(['FA', 'id', '60B', 'frame array 1']), rng.choice(['desc', '', 'Main: log']))
+        waveforms = nfr <= 8 and nch <= 10 and rng.random() < 0.02
+        for c in range(nch):
+            name = G.rand_mnem(rng, used, G.CURVE_NAMES + ['DEPT', 'TIME', 'INDEX'])
+            units = rng.choice(G.UNITS) if rng.random() < 0.8 else ''
+            if G._retypable(units):
+                units = 'M'
+            if rng.random() < 0.06:
+                # units that look like numbers (scale factors, counts): text all the same
+                units = rng.choice(['1', '100', '0.1', '1e-3', '5', '1000', '1E3', '0.001'])
+            long_name = G.rand_text(rng, allow_colon=rng.random() < 0.2)
+            dtype = rng.choice(DTYPES)
+            shape = rand_shape(rng) if (c > 0 or (rng.random() < 0.25 and not general)) else (1,)
+            if waveforms and c > 0 and rng.random() < 0.5:
+                shape = rng.choice([(128,), (256,), (500,), (4, 64)])       # waveform / image channels
+            count = 1
+            for s in shape:
+                count *= s
+            if c == 0:
+                # strictly monotonic index; every element of frame i lies in [base_i, base_i + step/4]
+                if dtype.startswith('float') and general:
+                    # index values that stay distinct at three significant digits
+                    sgn = rng.choice([1, -1])
+                    vals = [[float(sgn * (1 + f))] for f in range(nfr)]
+                    cls = 'index'
+                elif dtype.startswith('float'):
+                    unit = max(4 * 10.0 ** -d, 0.01)
+                    step = unit * rng.choice([1, 1, 2.5, 10, 100]) * rng.choice([1, 1, -1])
+                    start = rng.uniform(0, 1000)
+                    vals = [[start + f * step + (abs(step) / 4) * (rng.random() if count > 1 else 0) for _ in range(count)] for f in range(nfr)]
+                    cls = 'index'
+                else:
+                    lo, hi = INT_RANGE[dtype]
+                    step = rng.choice([1, 1, 2, 4]) if nfr * 4 < hi - lo else 1
+                    if step * nfr > hi - lo:       # int8/uint8 with many frames
+                        dtype = 'int32'
+                        lo, hi = INT_RANGE[dtype]
+                    start = rng.randint(max(lo, -10 ** 6), min(hi - step * nfr, 10 ** 6))
+                    sign = 1
+                    vals = [[start + f * step + (rng.randint(0, step // 4) if count > 1 else 0) for _ in range(count)] for f in range(nfr)]
+                    if rng.random() < 0.3 and lo < 0:
+                        vals = vals[::-1]
+                    cls = 'index'
+            else:
+                vals, cls = rand_values(rng, dtype, count, nfr, d)
+            # arrays decoded from big-endian files may keep that byte order
+            npdt = np.dtype(dtype)
+            big_endian = npdt.itemsize > 1 and rng.random() < 0.04
+            if big_endian:
+                npdt = npdt.newbyteorder('>')
+            ch = LogPass.FrameChannel(name, long_name, units, shape, npdt)
+            ch.init_array(nfr)
+            ch.array[...] = np.array(vals, dtype=dtype).reshape((nfr,) + shape)
+            fa.append(ch)
+            specs.append({'name': name, 'units': units, 'dtype': dtype, 'shape': list(shape), 'class': cls})
+            if big_endian:
+                specs[-1]['byteorder'] = '>'
+        names = [s['name'] for s in specs]
+        # ---- subset
+        r = rng.random()
+        if r < 0.25:
+            sub, sclass = set(), 'all(empty)'
+        elif r < 0.45:
+            sub, sclass = set(rng.sample(names[1:], rng.randint(0, len(names) - 1))) | {names[0]}, 'with-first'
+        elif r < 0.75:
+            sub = set(rng.sample(names[1:], rng.randint(1, len(names) - 1))) if nch > 1 else {'nope'}
+            sclass = 'without-first'
+        elif r < 0.9:
+            sub = set(rng.sample(names, rng.randint(0, len(names)))) | {rng.choice(['nope', 'XXXX', names[0].lower() + '_', ''])}
+            sclass = 'with-unknown'
+        else:
+            sub, sclass = set(names), 'all(named)'
+        exp_idx = [i for i, n in enumerate(names) if not sub or i == 0 or n in sub]
+        multi_nonfirst = red != 'first' and any(len(specs[i]['shape']) > 1 or specs[i]['shape'][0] > 1 for i in exp_idx)
+        nontrivial = (nch >= 2 and len(exp_idx) < nch) or multi_nonfirst
+        key = [[s['name'], s['units'], s['dtype'], s['shape'], s.get('byteorder', '')] for s in specs], [c.array.tobytes().hex() for c in fa.channels], sorted(sub), red, fw, fmt
+        opts = {'reduction': red, 'subset': sorted(sub), 'field_width': fw, 'format': fmt, 'frames': nfr}
+        # ---- the way the RP66V1 conversion hands a frame array over: only the first and the requested channels hold frames
+        partial = bool(sub) and len(exp_idx) < nch and rng.random() < 0.3
+        if partial:
+            for i in range(nch):
+                if i not in exp_idx:
+                    fa.channels[i].init_array(0)
+        # ---- one subset object kept by the caller for several frame arrays (as a directory conversion does)
+        shared = bool(sub) and rng.random() < 0.25
+        sub_arg = set(sub) if shared else None
+        extra = (['partially-populated'] if partial else []) + (['subset-object-shared'] if shared else []) + (['waveform-channel'] if any(
+            s['shape'][0] >= 128 or (len(s['shape']) > 1 and s['shape'][1] >= 128) for s in specs) else []) + (['dtype-big-endian'] if any(
+                'byteorder' in s for s in specs) else []) + (['field-width-%s' % ('<4' if fw < 4 else '>24')] if not 4 <= fw <= 24 else []) + (
+                    ['decimals>=10'] if d >= 10 else []) + (['channels>=20'] if nch >= 20 else [])
+        rec.case(key, nontrivial, classes=['subset-' + sclass, 'reduction-' + red, 'channels-%s' % (nch if nch < 4 else '4+')]
+                 + sorted(set('dtype-' + s['dtype'] for s in specs)) + sorted(set('values-' + s['class'] for s in specs))
+                 + sorted(set('rank-%d' % len(s['shape']) for s in specs)) + extra,
+                 sample={'channels': specs[:5], 'options': opts})
+        base_w = {'array': ai, 'channels': specs if len(specs) <= 12 else specs[:12] + ['... %d channels' % len(specs)], 'options': opts,
+                  'partially_populated': partial, 'subset_object_shared': shared}
+        done = write_and_check(fa, specs, sub, sub_arg, nfr, red, fw, fmt, d, general, base_w, 'whole frame array')
+        if done is None:
+            continue
+        (t_curve, t_head, t_data, fsl, maxf), res, exp_idx = done
+        hist = rng.random()
+        # ---- history: the documented incremental use - curve section and heading once, then the data of the same frame array
+        #      object re-initialised chunk by chunk
+        if res is not None and hist < 0.08 and nfr >= 2:
+            rec.mon('chunked_data_writes')
+            cuts = sorted(set([0, nfr] + [rng.randrange(1, nfr) for _ in range(rng.choice([1, 2, 3]))]))
+            full = [np.array(c.array, copy=True) for c in fa.channels]
+            out = io.StringIO()
+            try:
+                for a, b in zip(cuts, cuts[1:]):
+                    for c, keep in zip(fa.channels, full):
+                        if len(keep):
+                            c.init_array(b - a)
+                            c.array[...] = keep[a:b]
+                    WriteLAS.write_array_section_data_to_las(fa, red, set(sub) if sub_arg is None else sub_arg, fw, fmt, out)
+            except Exception as e:
+                viol('chunked_data_writes', 'writer-raises', 'data writer raised %s: %s on chunk of a re-initialised frame array' % (type(e).__name__, e),
+                     dict(base_w, cuts=cuts), exc=e)
+                out = None
+            for c, keep in zip(fa.channels, full):
+                c.array = keep
+            if out is not None:
+                check_text(HEADER + t_curve + t_head + out.getvalue(), fa, specs, exp_idx, nfr, red, fw, fmt, d, general, dict(base_w, cuts=cuts),
+                           'data written in %d chunks' % (len(cuts) - 1))
+        # ---- history: what the reader gave back (a frame array with the null values masked) is written again and read again
+        elif res is not None and 0.08 <= hist < 0.16 and not general:     # (three significant digits do not keep an integer index distinct)
+            rec.mon('second_generation')
+            tok, l1 = res
+            rfa = l1.frame_array
+            v1 = [np.ma.getdata(c.array).reshape(-1).tolist() for c in rfa.channels]
+            out = io.StringIO()
+            try:
+                with warnings.catch_warnings():
+                    warnings.simplefilter('ignore')
+                    WriteLAS.write_curve_and_array_section_to_las(rfa, nfr, red, fsl, set(), fw, fmt, out)
+                    l2 = LASRead.LASRead(io.StringIO(HEADER + out.getvalue()), 'c10-2')
+            except Exception as e:
+                viol('second_generation', 'raises', 'writing / reading the frame array that LASRead returned raised %s: %s' % (type(e).__name__, e),
+                     dict(base_w, text=out.getvalue()[:3000]), exc=e)
+                l2 = None
+            contracts.drain()
+            if l2 is not None:
+                exp_names = [specs[i]['name'] for i in exp_idx]
+                g2 = [c.ident for c in l2.frame_array.channels]
+                if g2 != exp_names or l2.number_of_frames() != nfr:
+                    viol('second_generation', 'structure', 'second generation has channels %r and %d frames, first generation %r and %d' % (
+                        g2, l2.number_of_frames(), exp_names, nfr), dict(base_w, text=out.getvalue()[:3000]))
+                else:
+                    nb = 0
+                    for col, c in enumerate(l2.frame_array.channels):
+                        v2 = np.ma.getdata(c.array).reshape(-1).tolist()
+                        for f in range(nfr):
+                            a, b = v1[col][f], v2[f]
+                            tol = (print_tol(fmt, Fraction(a)) if general else Fraction(1, 2 * 10 ** d)) + abs(Fraction(a)) / 2 ** 52
+                            if b != b or abs(Fraction(b) - Fraction(a)) > tol:
+                                nb += 1
+                                if nb <= 3:
+                                    viol('second_generation', 'value', 'channel %s frame %d: %r written and read again gives %r (format %s)' % (
+                                        c.ident, f, a, b, fmt), dict(base_w, first=a, second=b, text=out.getvalue()[:3000]))
+        # ---- history: the caller's subset object goes on to the next frame array, whose first channel is another one
+        if shared and names[0] not in sub and rng.random() < 0.6:
+            rec.mon('shared_subset_next_array')
+            xname = G.rand_mnem(rng, used, ['X2', 'TDEP', 'BOREHOLE-DEPTH'])
+            xch = LogPass.FrameChannel(xname, 'second index', 'M', (1,), np.dtype('float64'))
+            xch.init_array(nfr)
+            xch.array[...] = np.arange(1, nfr + 1, dtype='float64').reshape(nfr, 1) * rng.choice([1.0, -1.0, 10.0])    # distinct under every format used
+            fa2 = LogPass.FrameArray('FA2', 'next frame array of the same conversion')
+            fa2.append(xch)
+            for c in fa.channels:
+                fa2.append(c)
+            specs2 = [{'name': xname, 'units': 'M', 'dtype': 'float64', 'shape': [1], 'class': 'index'}] + specs
+            # content of the caller's set as the caller made it: whatever TotalDepth added meanwhile is not requested
+            write_and_check(fa2, specs2, sub, sub_arg, nfr, red, fw, fmt, d, general, dict(base_w, second_index=xname),
+                            'next frame array, same subset object', parts=False)
     for name, cnt in contracts.COUNTS.items():
         rec.mon('contract:' + name, cnt)
